@@ -477,6 +477,12 @@ func (oc *objectCache) get(obj types.Object) (val interface{}, errs []error) {
 		// Universe objects (nil, true, len, ...) are neither providers nor provider sets.
 		return nil, []error{fmt.Errorf("%v is not a provider or a provider set", obj)}
 	}
+	if obj.Parent() != obj.Pkg().Scope() {
+		// Parameters and other local objects are neither providers nor provider
+		// sets, and must not be mistaken for the package-level object of the
+		// same name that the cache may hold.
+		return nil, []error{fmt.Errorf("%v is not a provider or a provider set", obj)}
+	}
 	ref := objRef{
 		importPath: obj.Pkg().Path(),
 		name:       obj.Name(),
